@@ -79,22 +79,81 @@ def body_always_raises(body: list[ast.stmt]) -> bool:
     return g.exit not in reach
 
 
+def _exit_truth(v: ast.AST, exc_params: list[str], local_vals: dict) -> str:
+    """Truth of an __exit__ return expression *while an exception is in flight*
+    (exc_type, exc_value, traceback are then not None / truthy).
+    'falsy' | 'truthy' | 'computed' (a truth value computed from program state: the
+    exception is swallowed whenever it happens to be true) | 'unknown'."""
+    if v is None:
+        return "falsy"
+    if isinstance(v, ast.Constant):
+        return "truthy" if v.value else "falsy"
+    if isinstance(v, ast.Name):
+        if v.id in exc_params:
+            return "truthy"
+        if v.id in local_vals:
+            vals = {_exit_truth(x, exc_params, {}) for x in local_vals[v.id]}
+            return vals.pop() if len(vals) == 1 else ("computed" if "computed" in vals or "truthy" in vals else "unknown")
+        return "unknown"
+    if isinstance(v, ast.UnaryOp) and isinstance(v.op, ast.Not):
+        t = _exit_truth(v.operand, exc_params, local_vals)
+        return {"falsy": "truthy", "truthy": "falsy"}.get(t, t)
+    if isinstance(v, ast.BoolOp):
+        ts = [_exit_truth(x, exc_params, local_vals) for x in v.values]
+        if isinstance(v.op, ast.And):
+            if "falsy" in ts:
+                return "falsy"
+            if all(t == "truthy" for t in ts):
+                return "truthy"
+        else:
+            if "truthy" in ts:
+                return "truthy"
+            if all(t == "falsy" for t in ts):
+                return "falsy"
+        return "computed" if "computed" in ts else "unknown"
+    if isinstance(v, ast.Compare) and len(v.ops) == 1:
+        a, b = v.left, v.comparators[0]
+        names = {n.id for n in ast.walk(v) if isinstance(n, ast.Name)}
+        none_side = (isinstance(a, ast.Constant) and a.value is None) or (isinstance(b, ast.Constant) and b.value is None)
+        if none_side and names & set(exc_params) and len(names) == 1:
+            return "falsy" if isinstance(v.ops[0], (ast.Is, ast.Eq)) else "truthy"
+        if isinstance(v.ops[0], (ast.Is, ast.IsNot, ast.Eq, ast.NotEq, ast.In, ast.NotIn, ast.Lt, ast.Gt, ast.LtE, ast.GtE)):
+            return "computed"
+    if isinstance(v, ast.Call):
+        fn = dotted(v.func) or ""
+        if fn in ("bool",) and v.args:
+            return _exit_truth(v.args[0], exc_params, local_vals)
+        if fn in ("isinstance", "issubclass"):
+            return "computed"
+    return "unknown"
+
+
 def exit_suppresses(ctx, cls: ClassInfo) -> tuple[str, str]:
     """('never'|'may'|'unknown', detail) for the class's __exit__."""
     ex = cls.lookup_method("__exit__")
     if ex is None:
         return "unknown", "no __exit__ found"
     rets = [n for n in own_nodes(ex) if isinstance(n, ast.Return)]
+    exc_params = [p for p in ex.params[1:]]
+    local_vals: dict = {}
+    for n in own_nodes(ex):
+        if isinstance(n, ast.Assign):
+            for t in n.targets:
+                if isinstance(t, ast.Name):
+                    local_vals.setdefault(t.id, []).append(n.value)
     verdict = "never"
-    why = "falls off the end / returns only falsy constants"
+    why = "falls off the end / returns only values that are false while an exception is in flight"
     for r in rets:
-        v = r.value
-        if v is None or (isinstance(v, ast.Constant) and not v.value):
+        t = _exit_truth(r.value, exc_params, local_vals)
+        if t == "falsy":
             continue
-        if isinstance(v, ast.Constant) and v.value:
-            return "may", f"`{norm_src(r)}` at {ex.loc(r)}: a truthy result swallows the exception"
+        if t == "truthy":
+            return "may", f"`{norm_src(r)}` at {ex.loc(r)}: a true result swallows the exception"
+        if t == "computed":
+            return "may", (f"`{norm_src(r)}` at {ex.loc(r)}: the result is computed from program state; "
+                           f"whenever it is true the exception raised inside the block is swallowed")
         verdict = "unknown"
-        why = f"`{norm_src(r)}` at {ex.loc(r)} is not a constant"
+        why = f"`{norm_src(r)}` at {ex.loc(r)} cannot be classified"
     return verdict, why
 
 
